@@ -8,7 +8,10 @@ class Prop(WalletProp):
     rule = ("Par: paranoia_mode applied to real generate() outputs (both networks, with and without mnemonic/passphrase) and to adversarial trees: "
             "extra top-level keys carrying secrets, extra fields next to path/pub, rows of 1, 4, 5 columns, empty groups, missing keys, non-list groups; "
             "in Coq every string of the filtered output is checked not to be one of the unfiltered secrets (mnemonic, passphrase, BIP85 values, "
-            "extended private keys, WIFs), not to decode to a WIF / extended private key, and to be a leaf of the unfiltered data. Non-trivial = distinct (case, output).")
+            "extended private keys, WIFs), not to decode to a WIF / extended private key, and to be a leaf of the unfiltered data; every public datum of "
+            "the unfiltered data (path, pub, rows minus the last column) must still be present. ParCli: main() run in-process with --paranoia, incl. empty "
+            "and reversed intervals: stdout contains none of the wallet's secrets (requested and default account/interval) and all requested public "
+            "addresses. Non-trivial = distinct (case, output).")
 
     def gen_cases(self, rng, tier):
         T = tier == "thorough"
@@ -31,4 +34,10 @@ class Prop(WalletProp):
         ]
         for d in adv:
             cases.append({"kind": "Par", "data": d})
+        # the command line itself, incl. empty and reversed intervals (nothing to show must not mean "show the default wallet")
+        from btc_hd_wallet.bip39 import mnemonic_from_entropy
+        mn = mnemonic_from_entropy(bytes(rng.randrange(256) for _ in range(16)).hex())
+        for iv, acc, t in ((("0", "2"), None, False), (("5", "5"), "3", False), (("9", "4"), None, True), (("0", "0"), "1", True)):
+            cases.append({"kind": "ParCli", "v": {"cmd": "from-mnemonic", "secret": mn, "password": "pw " + str(iv[0]), "interval": iv,
+                                                  "account": acc, "testnet": t}})
         return cases
